@@ -183,7 +183,7 @@ def equiv(a, b, objs, ty=None, S=None, depth=0):
 
 # ---------------------------------------------------------------------------------------------- generators
 
-MODELLED_HAND = {"Date": 0, "Rectangle": 1, "Matrix": 2}
+MODELLED_HAND = {"Date": 0, "Rectangle": 1, "Matrix": 2, "Action": 3, "NameTree<Primitive>": 4}
 
 
 class Gen:
@@ -192,6 +192,7 @@ class Gen:
     def __init__(self, S, rng):
         self.S, self.rng = S, rng
         self.objs = []            # objects 1..n of the case
+        self.skip_hands = set()   # hand-written types this generator leaves out (treated as unmodelled)
 
     def obj(self, v):
         self.objs.append(v)
@@ -213,7 +214,7 @@ class Gen:
             return all(self.modelled(f["ty"], seen + (t[1],)) or self.optional(f) for f in self.S.structs[t[1]]["fields"] if not f["flags"] & 5)
         if c in (31, 32):
             return True
-        return c == 33 and self.S.hands[t[1]] in MODELLED_HAND
+        return c == 33 and self.S.hands[t[1]] in MODELLED_HAND and self.S.hands[t[1]] not in self.skip_hands
 
     @staticmethod
     def optional(f):
@@ -269,6 +270,39 @@ class Gen:
             z = r.choice(["", "Z", "Z00'00'", "Z00'00", "+%02d'%02d'" % (r.randint(0, 23), r.randint(0, 59)),
                           "-%02d'%02d" % (r.randint(0, 23), r.randint(0, 59)), "+%02d" % r.randint(0, 23), "-%02d'" % r.randint(0, 23)])
         return ("D:" + body + z).encode()
+
+    def action(self, dests=False):
+        """an action dictionary (ISO 32000-1 12.6): GoTo with a named destination (or, dests=True, an explicit
+        destination array), or another action type kept as its dictionary"""
+        r = self.rng
+        k = r.randrange(4 if dests else 3)
+        if k == 0:
+            return {"S": Name("GoTo"), "D": self.string() or b"d"}
+        if k == 1:
+            return {"S": Name("URI"), "URI": b"http://example.org/" + bytes([97 + r.randrange(26)])}
+        if k == 2:
+            d = {"S": Name(r.choice(["Named", "JavaScript", "Launch"])), "N": Name("NextPage")}
+            if r.random() < 0.5:
+                d["Type"] = Name("Action")
+            return d
+        view = r.choice([[Name("Fit")], [Name("FitB")], [Name("XYZ"), self.f32(), None, r.choice([0, 1, 1.5, 2])], [Name("XYZ"), None, None, 0],
+                         [Name("FitH"), self.f32()], [Name("FitV"), self.f32()], [Name("FitBH"), self.f32()],
+                         [Name("FitR")] + [self.f32() for _ in range(4)]])
+        return {"S": Name("GoTo"), "D": [r.choice([Ref(r.randint(1, 30)), None])] + view}
+
+    def nametree(self):
+        r = self.rng
+        d = {}
+        if r.random() < 0.4:
+            d["Limits"] = [b"a", b"z"]
+        if r.random() < 0.3:
+            d["Kids"] = [Ref(r.randint(1, 30)) for _ in range(r.randrange(3))]
+        else:
+            names = []
+            for _ in range(r.randrange(3)):
+                names += [self.string() or b"n", self.any_prim(1)]
+            d["Names"] = names
+        return d
 
     def any_prim(self, depth=0):
         r = self.rng
@@ -376,6 +410,8 @@ class Gen:
             return r.choice(self.S.ienums[t[1]]["variants"])[1]
         if c == 33:
             h = self.S.hands[t[1]]
+            if h in self.skip_hands:
+                return None
             if h == "Date":
                 return self.date()
             if h == "Rectangle":
@@ -383,6 +419,10 @@ class Gen:
                 return self.obj(v) if allow_ref and r.random() < 0.15 else v
             if h == "Matrix":
                 return [self.f32() for _ in range(6)]
+            if h == "Action":
+                return self.action()
+            if h == "NameTree<Primitive>":
+                return self.nametree()
             if h == "PagesRc":
                 return self.obj({"Type": Name("Pages"), "Kids": [], "Count": 0})
             return None
